@@ -44,7 +44,15 @@ func (eval Evaluator) EvaluateMany(ctIn *rlwe.Ciphertext, linearTransformations 
 
 	ctPreRot := map[int]*rlwe.Element[ringqp.Poly]{}
 
+	// MultiplyByDiagMatrixBSGS key-switches its giant steps, which uses BuffDecompQP as scratch memory.
+	var buffDecompIsStale bool
+
 	for i, lt := range linearTransformations {
+
+		if buffDecompIsStale {
+			eval.DecomposeNTT(levelQ, levelP, levelP+1, ctIn.Value[1], ctIn.IsNTT, BuffDecompQP)
+			buffDecompIsStale = false
+		}
 
 		if lt.N1 == 0 {
 			if err = eval.MultiplyByDiagMatrix(ctIn, lt, BuffDecompQP, opOut[i]); err != nil {
@@ -61,6 +69,8 @@ func (eval Evaluator) EvaluateMany(ctIn *rlwe.Ciphertext, linearTransformations 
 			if err = eval.MultiplyByDiagMatrixBSGS(ctIn, lt, ctPreRot, opOut[i]); err != nil {
 				return
 			}
+
+			buffDecompIsStale = true
 		}
 	}
 
